@@ -33,6 +33,8 @@ def determinism(out, rng, tier, cases, problems):
     sample = pool[:40 if tier == "quick" else 400]
     # conditions that name _KWARGS are always in the sample (the dictionary itself is shown then)
     sample += [c for c in pool[len(sample):] if "_KWARGS" in c["cond_params"] and "_ARGS" not in c["cond_params"]][:6]
+    # ... and so are the directed shapes whose message could depend on the hash seed
+    sample += [c for c in pool if str(c.get("label", "")).startswith("det-") and c not in sample]
     seeds = ["0", "1", "7", "12345"] if tier == "quick" else [str(s) for s in (0, 1, 2, 3, 7, 11, 99, 12345, 4294967295, 31337, 5, 6)]
     variants = []   # (case index, variant case)
     for i, c in enumerate(sample):
